@@ -1059,3 +1059,107 @@ func vfC04Tail(s string, n int) string {
 	}
 	return s
 }
+
+// ---- C04: feedback of the reference client in server mode, through the exported Run ----
+
+// TestVerifC04ServerModeFeedback: server mode - the runner's own reference client against a server under test that is
+// a real OS process (the test binary re-executed as "trailer-server": the repository's conformance server behind a
+// proxy that appends an HTTP trailer to every response). Every result matches its expectation, but the reference
+// client reports the trailer as feedback for each case: the run must not succeed, every case is named FAILED with that
+// feedback - unless it is marked known-failing / known-flaky, in which case it "failed as expected".
+func TestVerifC04ServerModeFeedback(t *testing.T) {
+	en := verifkit.NewEnum(t, "C04ServerModeFeedback")
+	type row struct {
+		Marking string `json:"marking"`
+		Cases   int    `json:"cases"`
+	}
+	var rows []row
+	for _, m := range []string{"none", "failing", "flaky"} {
+		for _, n := range []int{1, 3} {
+			rows = append(rows, row{m, n})
+		}
+	}
+	var replay row
+	if en.ReplayCase(&replay) {
+		rows = []row{replay}
+	}
+	for _, r := range rows {
+		viol := func() error {
+			dir, err := os.MkdirTemp(".", "c04sm")
+			if err != nil {
+				return nil
+			}
+			dir, _ = filepath.Abs(dir)
+			defer os.RemoveAll(dir)
+			var sb strings.Builder
+			sb.WriteString("name: Verif C04\nrelevantProtocols: [PROTOCOL_CONNECT]\nrelevantHttpVersions: [HTTP_VERSION_1]\nrelevantCodecs: [CODEC_PROTO]\nrelevantCompressions: [COMPRESSION_IDENTITY]\ntestCases:\n")
+			for i := 0; i < r.Cases; i++ {
+				fmt.Fprintf(&sb, "- request:\n    testName: unary/case-%d\n    streamType: STREAM_TYPE_UNARY\n    requestMessages:\n    - \"@type\": type.googleapis.com/connectrpc.conformance.v1.UnaryRequest\n      responseDefinition:\n        responseData: \"dGVzdCByZXNwb25zZQ==\"\n", i)
+			}
+			suiteFile, cfgFile := filepath.Join(dir, "suite.yaml"), filepath.Join(dir, "config.yaml")
+			_ = os.WriteFile(suiteFile, []byte(sb.String()), 0o644)
+			_ = os.WriteFile(cfgFile, []byte("features:\n  versions: [HTTP_VERSION_1]\n  protocols: [PROTOCOL_CONNECT]\n  codecs: [CODEC_PROTO]\n  compressions: [COMPRESSION_IDENTITY]\n  streamTypes: [STREAM_TYPE_UNARY]\n  supportsTls: false\n  supportsH2c: false\n  supportsConnectGet: false\n  supportsMessageReceiveLimit: false\n"), 0o644)
+			flags := &Flags{ConfigFile: cfgFile, TestFiles: []string{suiteFile}, ServerCommand: vfPeerCommand("trailer-server", "", ""), MaxServers: 1, Parallelism: 2}
+			switch r.Marking {
+			case "failing":
+				flags.KnownFailingPatterns = []string{"Verif C04/**"}
+			case "flaky":
+				flags.KnownFlakyPatterns = []string{"Verif C04/**"}
+			}
+			logP, errP := &vfC11PrinterLite{}, &vfC11PrinterLite{}
+			type result struct {
+				ok  bool
+				err error
+			}
+			done := make(chan result, 1)
+			go func() {
+				ok, err := Run(flags, logP, errP)
+				done <- result{ok, err}
+			}()
+			var res result
+			select {
+			case res = <-done:
+			case <-time.After(2 * time.Minute):
+				return nil // (an OS process is involved: no verdict on timing here)
+			}
+			out := strings.Join(logP.lines, "\n")
+			if res.err != nil {
+				return nil // could not run at all (environment): no verdict
+			}
+			if !strings.Contains(out, fmt.Sprintf("Total cases: %d", r.Cases)) {
+				return nil
+			}
+			if !strings.Contains(out, "HTTP trailers") {
+				if strings.Contains(out, fmt.Sprintf("%d passed, 0 failed", r.Cases)) && res.ok {
+					return verifkit.Violf("server-mode-feedback-dropped", "every response of the server under test carried an HTTP trailer, which the reference client reports as feedback, yet the run succeeded with no case named (%+v)\noutput:\n%s", r, out)
+				}
+				return verifkit.Violf("server-mode-feedback-unnamed", "the reference client's feedback about the HTTP trailer appears nowhere in the report (%+v)\noutput:\n%s", r, out)
+			}
+			for i := 0; i < r.Cases; i++ {
+				name := fmt.Sprintf("unary/case-%d", i)
+				want := "FAILED: "
+				if r.Marking != "none" {
+					want = "INFO: "
+				}
+				found := false
+				for _, l := range strings.Split(out, "\n") {
+					if strings.HasPrefix(l, want) && strings.Contains(l, name) {
+						found = true
+					}
+				}
+				if !found {
+					return verifkit.Violf("server-mode-feedback-unnamed", "case %s drew feedback from the reference client but has no %q line (%+v)\noutput:\n%s", name, want, r, out)
+				}
+			}
+			if wantOK := r.Marking != "none"; res.ok != wantOK {
+				return verifkit.Violf("server-mode-feedback-verdict", "Run = %v, want %v: every case drew feedback from the reference client, marking %s\noutput:\n%s", res.ok, wantOK, r.Marking, out)
+			}
+			return nil
+		}()
+		en.Rec.Observe(r, []string{"marking:" + r.Marking, fmt.Sprintf("cases:%d", r.Cases)}, true)
+		if viol != nil && en.Fail(r, viol) {
+			break
+		}
+	}
+	en.Done(true)
+}
